@@ -38,6 +38,7 @@ type Engine struct {
 	loadErrors []string
 	liveCache  map[*ssa.Function]map[*ssa.BasicBlock]map[ssa.Value]bool
 	instIfaces map[string]*types.Named
+	verdictDecls []string
 }
 
 // liveIn returns the set of SSA values live on entry to block b (phi results of b included:
@@ -200,6 +201,23 @@ func loadEngine(repo, verifDir string) (*Engine, error) {
 		}
 	}
 	e.scanMapLiterals()
+	// logic functions introduced by pure-verdict clauses
+	for k, ct := range e.specs.contracts {
+		if ct.PureVerdict == "" {
+			continue
+		}
+		fn := e.lookupFn(k)
+		if fn == nil {
+			continue
+		}
+		var sorts []string
+		for _, p := range fn.Params {
+			sorts = append(sorts, e.types.sortOf(p.Type()))
+		}
+		e.specs.funSigs[ct.PureVerdict] = funSig{args: sorts, ret: sortBool}
+		e.verdictDecls = append(e.verdictDecls, "(declare-fun "+ct.PureVerdict+" ("+strings.Join(sorts, " ")+") Bool)")
+	}
+	sort.Strings(e.verdictDecls)
 	e.instIfaces = map[string]*types.Named{}
 	for _, p := range pkgs {
 		if p.TypesInfo == nil {
